@@ -199,27 +199,40 @@ filter_stubs! {
     }
 }
 
-/// literal ids: exactly 4 bytes are accepted by Char4OrRegex::from_buf, and it keeps them
+/// literal ids: exactly 4 bytes are accepted by Char4OrRegex::from_buf (and kept); shorter / longer buffers are refused
+fn char4_from_buf_len<const N: usize>() {
+    let b: [u8; N] = kani::any();
+    let r = Char4OrRegex::from_buf(&b);
+    match &r {
+        Ok(Char4OrRegex::DltChar4(d)) => {
+            assert_eq!(N, 4);
+            assert_eq!(arr(d), [b[0], b[1], b[2], b[3 % N]]);
+        }
+        Ok(_) => assert!(false),
+        Err(_) => {
+            assert!(N != 4);
+        }
+    }
+    std::mem::forget(r); // (drop glue of the Regex variant is enormous)
+    kani::cover!(b[0] == 0, "NUL byte in id");
+}
 #[kani::proof]
 #[kani::unwind(8)]
 #[kani::stub(alloc::fmt::format, fmt_stub)]
-fn c11_char4_from_buf() {
-    let b: [u8; 6] = kani::any();
-    let n: usize = kani::any();
-    kani::assume(n <= 6);
-    match Char4OrRegex::from_buf(&b[..n]) {
-        Ok(Char4OrRegex::DltChar4(d)) => {
-            assert_eq!(n, 4);
-            assert_eq!(arr(&d), [b[0], b[1], b[2], b[3]]);
-        }
-        Ok(_) => assert!(false),
-        Err(e) => {
-            assert!(n != 4);
-            std::mem::forget(e);
-        }
-    }
-    kani::cover!(n == 4);
-    kani::cover!(n == 5);
+fn c11_char4_from_buf_len4() {
+    char4_from_buf_len::<4>();
+}
+#[kani::proof]
+#[kani::unwind(8)]
+#[kani::stub(alloc::fmt::format, fmt_stub)]
+fn c11_char4_from_buf_len3() {
+    char4_from_buf_len::<3>();
+}
+#[kani::proof]
+#[kani::unwind(8)]
+#[kani::stub(alloc::fmt::format, fmt_stub)]
+fn c11_char4_from_buf_len5() {
+    char4_from_buf_len::<5>();
 }
 pub fn fmt_stub(_args: std::fmt::Arguments<'_>) -> String {
     String::new()
